@@ -131,6 +131,65 @@ def run_kani(ov, filters, jobs, harness_timeout, total_timeout, extra, json_out,
     return rc, time.time() - t0
 
 
+def scan_harness_names(ov):
+    """Short names of the harness functions in the overlay's harness modules: functions that follow a
+    `#[kani::proof]` attribute and the name argument of the instance macros (`inst!(name, ..)`)."""
+    names = set()
+    for d, _, fs in os.walk(os.path.join(ov, "src")):
+        for f in fs:
+            path = os.path.join(d, f)
+            if not f.endswith(".rs") or "verif_" not in path:
+                continue
+            src = open(path).read()
+            for m in re.finditer(r"#\[kani::proof\](?:\s*#\[[^\]]*\])*\s*(?:pub(?:\([a-z]+\))?\s+)?fn\s+(\w+)\s*\(", src):
+                names.add(m.group(1))
+            for m in re.finditer(r"\b\w+!\(\s*((?:c\d\d|pt)[a-z0-9_]*)\s*,", src):
+                names.add(m.group(1))
+    names.discard("")
+    return sorted(n for n in names if not n.startswith("$"))
+
+
+def run_kani_batched(ov, filters, jobs, harness_timeout, total_timeout, extra, json_out, log_path, mem_gb, batch):
+    """The Kani driver keeps about 80 MB per finished harness until it exits (15 GB for the page-table family):
+    large selections are run as several invocations of at most `batch` harnesses, named explicitly, and the
+    result files are merged.  Selection = the harness names found in the overlay that contain one of the filters,
+    i.e. what the filters themselves would select."""
+    names = [n for n in scan_harness_names(ov) if any(f in n for f in filters)]
+    # a name that is a substring of another one selects both: drop the longer one from the explicit list
+    names = [n for n in names if not any(o != n and o in n for o in names)]
+    if not batch or len(names) <= batch + batch // 4:
+        return run_kani(ov, filters, jobs, harness_timeout, total_timeout, extra, json_out, log_path, mem_gb)
+    t0 = time.time()
+    merged = None
+    rc_all = 0
+    nb = (len(names) + batch - 1) // batch
+    size = (len(names) + nb - 1) // nb
+    for k in range(nb):
+        part = names[k * size:(k + 1) * size]
+        jk = json_out + f".{k}"
+        left = max(60, total_timeout - (time.time() - t0))
+        rc, _ = run_kani(ov, part, jobs, harness_timeout, left, extra, jk, log_path + f".{k}", mem_gb)
+        with open(log_path, "a") as lf:
+            lf.write(open(log_path + f".{k}").read())
+        rc_all = rc_all or rc
+        if not os.path.exists(jk):
+            return rc or 1, time.time() - t0   # no merged file: the caller reports "no results"
+        d = json.load(open(jk))
+        os.remove(jk)
+        if merged is None:
+            merged = d
+            continue
+        seen = {r["harness_id"] for r in merged["verification_results"]["results"]}
+        merged["verification_results"]["results"] += [r for r in d["verification_results"]["results"] if r["harness_id"] not in seen]
+        seen_m = {json.dumps(h, sort_keys=True) for h in merged.get("harness_metadata", [])}
+        merged.setdefault("harness_metadata", [])
+        merged["harness_metadata"] += [h for h in d.get("harness_metadata", []) if json.dumps(h, sort_keys=True) not in seen_m]
+        merged.setdefault("cbmc", [])
+        merged["cbmc"] += [c for c in d.get("cbmc", []) if c.get("harness_id") not in seen]
+    json.dump(merged, open(json_out, "w"))
+    return rc_all, time.time() - t0
+
+
 def classify(prop, results, known, expected_panics=(), own_labels_only=False):
     """Returns (violations, findings, inconclusive, stats, per_harness)."""
     violations, findings, inconclusive = [], [], []
@@ -350,10 +409,10 @@ def run_check(prop, tier, cfg):
         json_out = os.path.join(ov, "kani_results.json")
         log_path = os.path.join(ov, "kani.log")
         extra = list(cfg.get("extra", []))
-        rc, wall = run_kani(ov, filters, cfg.get("jobs", 8),
-                            cfg.get("harness_timeout_thorough" if tier == "thorough" else "harness_timeout", 600),
-                            cfg.get("total_timeout_thorough" if tier == "thorough" else "total_timeout", 3000),
-                            extra, json_out, log_path, cfg.get("mem_gb"))
+        rc, wall = run_kani_batched(ov, filters, cfg.get("jobs", 8),
+                                    cfg.get("harness_timeout_thorough" if tier == "thorough" else "harness_timeout", 600),
+                                    cfg.get("total_timeout_thorough" if tier == "thorough" else "total_timeout", 3000),
+                                    extra, json_out, log_path, cfg.get("mem_gb"), cfg.get("batch", 48))
         if not os.path.exists(json_out):
             tail = open(log_path).read()[-4000:]
             log(tail)
